@@ -525,6 +525,9 @@ func (w *worker) transports() {
 		// response waiting for groups that were counted but never started
 		`{ an { vid rsn ... @defer { rs ri } bn { vid ... @defer(label: "b") { rs } } } }`,
 		`{ as(n: 3) { rsn ... @defer { rs } rblnn { vid ... @defer { rs a { rsn ... @defer { ri } } } } } }`,
+		// a list of a type nested (two levels down) inside a list of the same type: with a worker limit
+		// the inner lists need workers while the outer elements hold theirs
+		`{ as(n: 3) { vid rbl { vid al { vid rs rbl { vid } } } } }`,
 		// requests the transport refuses before any execution: whatever it set up for the response
 		// (tickers, aggregators) must be torn down on these paths too
 		`{ nosuchfield }`,
